@@ -5,8 +5,14 @@
 // The block is filled with a code of the linear offset (the offset itself when size <= 256, a salted hash otherwise),
 // so that every element seen through a view identifies the element it aliases.
 // Oracle: row-major reference arithmetic of the harness (strides computed here, lexicographic enumeration with a
-// running counter); pointer identity for aliasing views, value identity for copies; naive prefix sums for the
-// summed-area table.  The library is never asked for the expected offset / dims / value.
+// running counter); pointer + extent identity for aliasing views (plus the first, the last and one random element read
+// through the view), value identity for copies; box sums by definition for the summed-area table.  The library is
+// never asked for the expected offset / dims / value.
+//
+// Structure (compile time matters: the tensor library is header-only and every call is instrumented by ASan+UBSan):
+// thin typed shims (shim_t<T, R, tensor type>) only call the library and record what they see in plain structs; the
+// enumeration of tuples / prefixes / slices / factorisations and all judging is compiled once per scalar type and works
+// on run-time ranks.  See `full_suite` / `with_extras` for which scalar type runs which part.
 //
 // modes: "exhaustive" = every shape of rank 1..4 with dims 0..4 and rank 5 with dims 0..3 (1804 shapes) x 10 scalar
 //                       types = 18040 cases (case index -> (shape, type); more cases wrap around with other gathers),
